@@ -128,7 +128,33 @@ pub fn run_case(ctx: &Ctx, idx: u64) -> Vec<CaseOut> {
     let case = make_case(ctx, idx, &mut r);
     let tiny_ctx = ctx.is("miri");
     let o = fast_opts(case.dict);
-    let data = mt::stamped_data(&mut r, case.len, case.unit.max(case.dict as u64) as usize, case.compressible);
+    let mut data = mt::stamped_data(&mut r, case.len, case.unit.max(case.dict as u64) as usize, case.compressible);
+    // streams whose unit starts with stored (uncompressed) chunks and goes on with LZMA chunks that
+    // refer back into them: the first LZMA chunk then carries new properties and a state reset but NO
+    // dictionary reset (control 0xC0) - a place where the stream must not be cut into units
+    let mixed = !tiny_ctx
+        && idx >= STEER
+        && match &case.kind {
+            Kind::Read2 { maker } => matches!(maker, 2 | 5) || (matches!(maker, 1 | 4) && case.unit >= 131_072),
+            _ => false,
+        }
+        && r.chance(1, 2);
+    if mixed {
+        let hn = 66_000 + r.usize_below(140_000);
+        let head = r.bytes(hn);
+        let mut d = head.clone();
+        let tn = 20_000 + r.usize_below(60_000);
+        let text = gen::gen_data(&mut r, gen::Family::Text, tn);
+        d.extend_from_slice(&text);
+        for _ in 0..8 {
+            let a = r.usize_below(head.len() - 600);
+            let n = 50 + r.usize_below(500);
+            d.extend_from_slice(&head[a..a + n]);
+            let b = r.usize_below(text.len() - 300);
+            d.extend_from_slice(&text[b..b + 200]);
+        }
+        data = d;
+    }
     let sizes: Vec<usize> = if r.chance(1, 2) {
         vec![*r.pick(&[1usize, 7, 100, 1000])]
     } else {
@@ -157,7 +183,13 @@ pub fn run_case(ctx: &Ctx, idx: u64) -> Vec<CaseOut> {
         "{kname}|{wclass}|unit{}|{}|{}",
         if case.unit <= case.dict as u64 { "<=dict" } else { ">dict" },
         gen::len_class(data.len()),
-        if case.compressible { "compressible" } else { "random" }
+        if mixed {
+            "stored-then-lzma"
+        } else if case.compressible {
+            "compressible"
+        } else {
+            "random"
+        }
     );
 
     // ---- build the stream for reader cases (before scheduling noise is switched on)
